@@ -404,7 +404,7 @@ def _filter_files(max_lines: int):
 
     from . import filter_model as flt
 
-    kinds = list(flt.LINE_KINDS)
+    kinds = [k for k in flt.LINE_KINDS if k != "blank"]
     small = ["code", "code+bare", "code+A", "code+B+A", "own-bare", "own-A"]
     for n in range(1, max_lines + 1):
         pool = kinds if n <= 2 else small
@@ -415,6 +415,9 @@ def _filter_files(max_lines: int):
         ("own-A", "comment", "code"), ("own-B", "own-A", "code"), ("own-A", "own-B", "code"), ("own-bare", "own-A", "code"),
         ("code+A", "own-B", "code"), ("comment", "own-A", "code"), ("code", "own-A", "code+B"), ("code", "own-A", "own-B", "code"),
         ("code", "own-A", "comment", "own-B", "code"), ("code", "own-A-indented", "own-B", "indented-code"),
+        # a blank line ends the leading comment block: what follows is no file-level ignore
+        ("comment", "blank", "own-A", "code", "code"), ("blank", "own-bare", "code", "code"), ("comment", "blank", "own-bare", "code", "code+A"),
+        ("own-A", "blank", "code", "code"),
     ):
         yield [flt.LINE_KINDS[k] for k in combo], combo
 
